@@ -22,16 +22,20 @@ let () =
       (match zmodem_detect (bytes_of_hex b) with None -> "-1" | Some true -> "1" | Some false -> "0")
     | _ -> "?args");
   register "zmodem_finish_re" (function [b] -> str_of_bool (zmodem_finish_re (bytes_of_hex b)) | _ -> "?args");
-  register "zmodem_run" (function [fixed; launch; ae; dl; greet; re; horizon; evs] ->
+  register "zmodem_run" (function [fixed; launch; ae; dl; greet; remote; re; horizon; evs] ->
       let launch = match launch with "ok" -> 0 | "fail" -> 1 | _ -> 2 in
       let ae = if ae = "-" then None else Some (z_of_int (int_of_string ae)) in
       let evs = List.map zm_event (split_on ';' evs) in
-      let ((items, hb), (flags, (ptr, (started, nl)))) =
-        zmodem_run_canon (bool_of fixed) (n_of_int launch) ae (bool_of dl) (bytes_of_hex greet) (List.map (fun x -> x = "1") (split_on ',' re)) (n_of_int (int_of_string horizon)) evs in
+      let remote = if remote = "-" then None else
+          (match String.split_on_char ':' remote with
+           | [t0; p; m; h; pr] -> Some (n_of_int (int_of_string t0), (n_of_int (int_of_string p), (nat_of_int (int_of_string m), (bytes_of_hex h, bytes_of_hex pr))))
+           | _ -> failwith "remote") in
+      let ((items, hb), (flags, (ptr, (started, (nl, rw))))) =
+        zmodem_run_canon (bool_of fixed) (n_of_int launch) ae (bool_of dl) (bytes_of_hex greet) remote (List.map (fun x -> x = "1") (split_on ',' re)) (n_of_int (int_of_string horizon)) evs in
       let term = List.filter_map (fun (k, d) -> match int_of_n k with
           | 0 -> Some ("f" ^ hex_of_bytes d) | 1 -> Some "h" | 2 -> Some "s" | 3 -> Some (zm_msg d) | _ -> None) items in
       let srv = List.filter_map (fun (k, d) -> match int_of_n k with
           | 4 -> Some ("d" ^ hex_of_bytes d) | 5 -> Some "c" | 6 -> Some "o" | _ -> None) items in
       let fl = if started then String.concat "" (List.map str_of_bool flags) else "none" in
-      "T=" ^ zm_join term ^ "|S=" ^ zm_join srv ^ "|H=" ^ hex_of_bytes hb ^ "|F=" ^ fl ^ "|P=" ^ str_of_bool ptr ^ "|L=" ^ string_of_int (int_of_n nl)
+      "T=" ^ zm_join term ^ "|S=" ^ zm_join srv ^ "|H=" ^ hex_of_bytes hb ^ "|F=" ^ fl ^ "|P=" ^ str_of_bool ptr ^ "|L=" ^ string_of_int (int_of_n nl) ^ "|R=" ^ (if remote = None then "-" else if rw then "waiting" else "done")
     | _ -> "?args")
